@@ -39,6 +39,7 @@ CLAIMED = {
         text="Theorem C12_transparent (axiom-free): a corrupted frame met at a frame boundary is delivered alone and leaves nothing behind in the handler's time state or the scanner: whatever bytes follow are reported in full, times and final state included, exactly as the rest of the stream on its own. Theorem C12_isolation (axiom-free): a frame with the length and leader of a valid frame whose CRC does not match "
              "(any alteration of payload/CRC, new 0xD3 bytes included) is delivered as one non-RTCM message with exactly its bytes "
              "and all other segments are delivered as without the corruption (same induction as C03 with a third segment kind). "
+             "Theorems C12_any_number and C12_many_vs_uncorrupted (axiom-free): the same for any number of corrupted frames in one stream, compared entry by entry with the report of the stream before the corruptions. "
              "Correspondence: ~1700 streams per run with a victim at every position and bit/burst/byte/0xD3/CRC corruption.",
         note=CORR + "Time fields are projected away.", design="5/C12",
         technique="Coq proof (induction over segments) + extracted-model correspondence"),
